@@ -667,8 +667,10 @@ class RiscvParser(Parser):
             else:
                 # in line label
                 if line_number in self.in_line_labels:
+                    # pop: a pseudo-instruction expands to several entries with the same line number,
+                    # the label belongs to the first one only
                     self._add_label_mapping(
-                        self.in_line_labels[line_number],
+                        self.in_line_labels.pop(line_number),
                         instruction_address,
                         line_number,
                         line,
